@@ -296,6 +296,9 @@ func (*parser).alias [C07]
 
 // the callback handed to filepath.WalkDir for directory imports: WalkDir passes a nil entry only together with the
 // root path (when the root cannot be read), so the entry may be used for every other path - and only there
+// C16, package-wide: nothing that delivers a diagnostic is called from inside a loop that ranges over a map
+ordered err errVal warn perr [C16]
+
 // ================= C10: one parse per path, cycles rejected =================
 // resolveSingleModule, the closure of resolveModuleImport that maps a resolved path to a module.
 // predefinedModules: path -> module, nil while that module is still being parsed (shared by all recursive Parse calls).
